@@ -203,7 +203,38 @@ class Translator:
                     and len(t.operand.args) == 1 and not st.orelse):
                 p = _dirpath(t.operand.args[0], env)
                 return [("SIfNotIsDir", p, self.stmts(mod, st.body, env))]
+            # if not (flag and os.path.isdir(DIR)):
+            if (isinstance(t, ast.UnaryOp) and isinstance(t.op, ast.Not) and isinstance(t.operand, ast.BoolOp)
+                    and isinstance(t.operand.op, ast.And) and len(t.operand.values) == 2 and not st.orelse
+                    and isinstance(t.operand.values[0], ast.Name)
+                    and env.get(t.operand.values[0].id, ("",))[0] == "published"
+                    and _is_call(t.operand.values[1], "os.path.isdir") and len(t.operand.values[1].args) == 1):
+                _, link, d = env[t.operand.values[0].id]
+                p = _dirpath(t.operand.values[1].args[0], env)
+                if p != d:
+                    _fail(st, "the publication flag and the isdir test name different directories")
+                return [("SIfNotPublished", link, p, self.stmts(mod, st.body, env))]
             _fail(st, "unsupported conditional")
+        if isinstance(st, ast.Try) and len(st.body) == 1 and isinstance(st.body[0], ast.Assign):
+            # try: flag = os.readlink(LINK) == os.path.basename(DIR)   except OSError: flag = False
+            a = st.body[0]
+            h = st.handlers[0] if len(st.handlers) == 1 else None
+            ok = (h is not None and not st.orelse and not st.finalbody and len(a.targets) == 1
+                  and isinstance(a.targets[0], ast.Name) and isinstance(a.value, ast.Compare)
+                  and len(a.value.ops) == 1 and isinstance(a.value.ops[0], ast.Eq)
+                  and _is_call(a.value.left, "os.readlink") and len(a.value.left.args) == 1
+                  and not a.value.left.keywords
+                  and h.type is not None and _src(h.type) == "OSError" and len(h.body) == 1
+                  and isinstance(h.body[0], ast.Assign) and len(h.body[0].targets) == 1
+                  and _src(h.body[0].targets[0]) == a.targets[0].id and _src(h.body[0].value) == "False")
+            if not ok:
+                _fail(st, "unsupported try statement")
+            link = _dirpath(a.value.left.args[0], env)
+            t = _pathval(a.value.comparators[0], env)
+            if t[0] != "base":
+                _fail(a, "readlink is not compared with os.path.basename(<step directory>)")
+            env[a.targets[0].id] = ("published", link, t[1])
+            return []
         if isinstance(st, ast.Try):
             ok = (len(st.body) == 1 and isinstance(st.body[0], ast.Expr) and _is_call(st.body[0].value, "os.unlink")
                   and len(st.handlers) == 1 and st.handlers[0].type is not None
@@ -391,6 +422,8 @@ def _stmt_coq(s):
     k = s[0]
     if k == "SIfNotIsDir":
         return f"SIfNotIsDir {s[1]} [{'; '.join(_stmt_coq(x) for x in s[2])}]"
+    if k == "SIfNotPublished":
+        return f"SIfNotPublished {s[1]} {s[2]} [{'; '.join(_stmt_coq(x) for x in s[3])}]"
     if k == "SWrite":
         return f'SWrite {s[1]} "{s[2]}" {s[3]}'
     return " ".join([k] + list(s[1:]))
@@ -401,6 +434,9 @@ TYPES = '''Inductive comp := CModel | CConfig | COpt | CReplay | CElapsed.
 Inductive pexp := PFinal | PTmp | PLatest | PLatestTmp.
 Inductive stmt :=
 | SIfNotIsDir (p : pexp) (body : list stmt)   (* if not os.path.isdir(p): body *)
+| SIfNotPublished (link p : pexp) (body : list stmt)
+      (* try: f = os.readlink(link) == os.path.basename(p)  except OSError: f = False
+         if not (f and os.path.isdir(p)): body *)
 | SRmTree (p : pexp)                          (* shutil.rmtree(p, ignore_errors=True) *)
 | SMkDirs (p : pexp)                          (* os.makedirs(p, exist_ok=True) *)
 | SWrite (d : pexp) (file : string) (c : comp) (* torch.save(c, d/file)  or  with open(d/file, "w") as fh: yaml.dump(c, fh) *)
